@@ -18,8 +18,10 @@ use tokio_tungstenite::{tungstenite::Message, MaybeTlsStream, WebSocketStream};
 use crate::{common::*, net::*};
 
 #[derive(Clone, Debug)]
-pub enum Msg { Bin(Vec<u8>), Text, Ping, Pong, Close, Reset }
-fn msg_tag(m: &Msg) -> String { match m { Msg::Bin(b) => format!("b{}", hex(b)), Msg::Text | Msg::Ping | Msg::Pong => "s".into(), Msg::Close | Msg::Reset => "e".into() } }
+pub enum Msg { Bin(Vec<u8>), Text, Ping, Pong, Close, Reset,
+    /// a close handshake with a status code and reason (1000 normal, 1001 going away, 1008 policy, 1011 error, 1012 restart, 4000 private)
+    CloseCode(u16) }
+fn msg_tag(m: &Msg) -> String { match m { Msg::Bin(b) => format!("b{}", hex(b)), Msg::Text | Msg::Ping | Msg::Pong => "s".into(), Msg::Close | Msg::Reset | Msg::CloseCode(_) => "e".into() } }
 
 /// client side of a fresh loopback WebSocket connection + the server task's result (messages it received)
 async fn connect(script: Vec<Msg>) -> (WebSocketStream<MaybeTlsStream<TcpStream>>, tokio::task::JoinHandle<Vec<Message>>) {
@@ -36,6 +38,7 @@ async fn connect(script: Vec<Msg>) -> (WebSocketStream<MaybeTlsStream<TcpStream>
                 Msg::Ping => ws.send(Message::Ping(vec![1, 2, 3])).await,
                 Msg::Pong => ws.send(Message::Pong(vec![9])).await,
                 Msg::Close => ws.close(None).await,
+                Msg::CloseCode(c) => ws.close(Some(tokio_tungstenite::tungstenite::protocol::CloseFrame { code: tokio_tungstenite::tungstenite::protocol::frame::coding::CloseCode::from(c), reason: "bye".into() })).await,
                 Msg::Reset => { reset = true; break; },
             };
             if r.is_err() { break; }
@@ -304,6 +307,41 @@ pub fn ws_keepalive_case_with(rt: &tokio::runtime::Runtime, compressed: bool, n:
     })
 }
 
+/// a lock-step WebSocket peer: each binary message holds 37 keep-alives (148 / 37 bytes, so that messages keep straddling the end of the
+/// connection's 6120-byte receive buffer), and the next message is sent only when every reply to the previous ones has arrived.
+/// Returns (keep-alives sent, handed to the caller, replies the peer received, rounds completed).
+pub fn ws_lockstep_case(rt: &tokio::runtime::Runtime, compressed: bool, rounds: usize, cancel_us: Option<u64>) -> (usize, usize, usize, usize) {
+    rt.block_on(async {
+        let listener = tokio::net::TcpListener::bind("127.0.0.1:0").await.unwrap();
+        let addr = listener.local_addr().unwrap();
+        let ka: Vec<u8> = raw_frame(compressed, 3, 0, &[0]); let ka2 = ka.clone();
+        let server = tokio::spawn(async move {
+            let (tcp, _) = listener.accept().await.unwrap();
+            let ws = tokio_tungstenite::accept_async(tcp).await.unwrap();
+            let (mut tx, mut rx) = ws.split();
+            let mut sent = 0usize; let mut replies = 0usize; let mut done = 0usize;
+            'rounds: for _ in 0..rounds {
+                let mut m = vec![]; for _ in 0..37 { m.extend_from_slice(&ka2); }
+                if tx.send(Message::Binary(m)).await.is_err() { break; }
+                sent += 37;
+                while replies < sent { match tokio::time::timeout(Duration::from_millis(1500), rx.next()).await { Ok(Some(Ok(Message::Binary(b)))) => { replies += b.len() / ka2.len().max(1); }, Ok(Some(Ok(_))) => {}, _ => break 'rounds } }
+                done += 1;
+            }
+            let _ = tx.close().await;
+            (sent, replies, done)
+        });
+        let tcp = tokio::net::TcpStream::connect(addr).await.unwrap();
+        let _ = tcp.set_nodelay(true);
+        let (ws, _) = tokio_tungstenite::client_async("ws://127.0.0.1/connect", MaybeTlsStream::Plain(tcp)).await.unwrap();
+        let mut f = AFramed::new(Box::new(WebsocketStream::from(ws)), Codec::new(mode_of(compressed)));
+        let mut handed = 0usize; let mut last = std::time::Instant::now();
+        loop { match tokio::time::timeout(Duration::from_micros(cancel_us.unwrap_or(3_000_000)), f.read()).await { Ok(Ok(p)) => { last = std::time::Instant::now(); if p.maybe_pong().is_some() { handed += 1; } }, Ok(Err(_)) => break, Err(_) => if last.elapsed() > Duration::from_secs(3) { break; } } }
+        drop(f);
+        let (sent, replies, done) = server.await.unwrap_or((0, 0, 0));
+        (sent, handed, replies, done)
+    })
+}
+
 pub fn run(a: &Args) {
     let rt = crate::c08::io_runtime();
     if let Some(r) = &a.replay {
@@ -380,13 +418,13 @@ pub fn run(a: &Args) {
         }
     }
     // closure: a close handshake in the middle of a frame, and a connection dropped without one
-    for (name, ending) in [("close handshake mid-frame", Msg::Close), ("TCP reset without a close handshake", Msg::Reset)] {
+    for (name, ending) in [("close handshake mid-frame", Msg::Close), ("TCP reset without a close handshake", Msg::Reset), ("close 1000", Msg::CloseCode(1000)), ("close 1001", Msg::CloseCode(1001)), ("close 1008", Msg::CloseCode(1008)), ("close 1011", Msg::CloseCode(1011)), ("close 1012", Msg::CloseCode(1012)), ("close 4000", Msg::CloseCode(4000))] {
         let fr = Frames::new(true, vec![raw_frame(true, 3, 1, &[1]), raw_frame(true, 3, 2, &[2])]); let idx = RepIndex::new(&fr);
         let script = vec![Msg::Bin(fr.frames[0].clone()), Msg::Bin(fr.frames[1][..2].to_vec()), ending.clone()];
         let (trace, _, _) = session_run(&rt, &fr, &idx, false, &script);
         st.evaluations += 1;
         st.notes.push(format!("{name}: reads return {}", trace.join(" ")));
-        if matches!(ending, Msg::Close) && trace != vec!["P0".to_string(), "DC".to_string()] { st.fail(format!("[C20] closure after a partial frame: got {:?}, want [P0, DC]", trace), "closure".into()); }
+        if matches!(ending, Msg::Close | Msg::CloseCode(_)) && trace != vec!["P0".to_string(), "DC".to_string()] { st.fail(format!("[C20] {name} after a partial frame: got {:?}, want [P0, DC] (whatever its status code, a close handshake is the end of the stream)", trace), "closure".into()); }
         if trace.first().map(|s| s.as_str()) != Some("P0") || trace.len() != 2 { st.fail(format!("[C20] {name}: got {:?}, want the first packet then one terminal result", trace), "closure".into()); }
     }
     // (c') writes under back-pressure (the peer is slow to read; small socket buffers)
@@ -418,6 +456,12 @@ pub fn run(a: &Args) {
     }
     st.rule = "real WebsocketStream on a loopback tokio-tungstenite server: (a) AsyncRead driven with scripted slice sizes 1..7000 over scripts of binary (1..66000 bytes), empty binary, text, ping and pong messages, chunks compared with the payloads and the model; (b) Framed sessions of 1..700 frames (all kinds) under six partition styles (one frame per message, several per message, random mid-frame cuts, messages of 1021..20000 bytes, 1..3-byte messages, one message) with 0/10/40 % interleaved non-binary messages, ended by a close handshake; (c) every kind written, the server must receive one binary message per packet equal to its frame; non-trivial = frames split across or sharing messages".into();
     st.sample("session C 424242 60 2 10  (60 frames cut at random byte positions into binary messages, 10% noise)".into());
+    // a lock-step peer over the WebSocket transport
+    { let iort = tokio::runtime::Builder::new_multi_thread().worker_threads(2).enable_all().build().unwrap();
+      for compressed in [true, false] { let rounds = if a.thorough() { 2000 } else { 400 };
+        let (sent, handed, replies, done) = ws_lockstep_case(&iort, compressed, rounds, None); st.evaluations += sent as u64;
+        if done != rounds || handed != sent || replies != sent { st.fail(format!("[C20 websocket] lock-step peer: round {done} of {rounds} never completed: {sent} keep-alives sent in 148/37-byte messages, {handed} handed to the caller, {replies} replies received"), format!("wslock {} {rounds}", mode_tag(compressed))); }
+        st.bump("lock-step websocket sessions"); } }
     { let c2 = crate::conv::async_conversations("C20", a, &mut rng, &mut st, &mut out); st.distinct_nontrivial += c2.distinct.len() as u64; }
     crate::net::report_unconsumed("C20", &mut st);
     out.finish(&st);
